@@ -27,7 +27,11 @@ func enumerate(c *lib.Ctx, maxLen int) []string {
 	seen := map[string]bool{}
 	var out []string
 	rng := rand.New(rand.NewSource(c.Seed*7919 + 3))
-	for _, al := range alphabets {
+	for ai, al := range alphabets {
+		limit := maxLen
+		if c.Quick() && ai%2 == 1 {
+			limit = maxLen - 1 // quick tier: the two secondary alphabets one byte shorter
+		}
 		var rec func(prefix []byte)
 		rec = func(prefix []byte) {
 			b := make([]byte, len(prefix))
@@ -51,7 +55,7 @@ func enumerate(c *lib.Ctx, maxLen int) []string {
 					out = append(out, s)
 				}
 			}
-			if len(prefix) == maxLen {
+			if len(prefix) == limit {
 				return
 			}
 			for _, x := range al {
